@@ -18,6 +18,26 @@ CHECKS = {}
 for _m in pipelines.load_all():
     CHECKS.update({k: v for k, v in getattr(_m, "CHECKS", {}).items() if k in CLAIMED})
 
+# additions of the fifth session (DESIGN.md 14.6 - 14.8), appended to the level notes of the checks they extend
+ADDENDA = {
+ "C01": "Fifth session: directed histories on ONE genome within one registry lifetime (forward link / recurrent reverse / toggle / reverse again as a forward link; split, re-enable, split again), one generation with 70-130 recorded innovations, a zero-based start genome whose traits have 3 and 10 parameters.",
+ "C03": "Fifth session: a generation with 70-130 recorded innovations followed by repetitions of its first splits (TLC runs with -Xss512m); the one-genome twin and re-split histories of C01.",
+ "C04": "Fifth session: a start genome whose node ids start at 0 and whose traits have 3 and 10 parameters.",
+ "C06": "Fifth session: module links with weights, recurrence flags and traits of their own and identity cells for them (link, far-end node, trait, the control node's trait) in Cells / Refs; trait vectors of 3 and 10 parameters. Defect found and repaired: module links of a duplicate kept the original's trait objects (repo 17d2561).",
+ "C08": "Fifth session: one executor value over the epochs of most sequential scenarios, a NEW Options object with other values from some epoch on in a third of the scenarios, evolved populations read back from the genome-by-genome AND the by-species file layout, organisms that carry winner flags / error values / built phenotypes.",
+ "C09": "Fifth session: clause TopKept (nobody eliminated is fitter than somebody kept, by dense ranks of the adjusted fitness), fitness families close (values agreeing in nine digits) and tiny (1e-12), age significance below one (MC_Quota 1/2, 3/4; driver 0.5, 0.6, 0.8), persistent executors and a new Options object mid-run.",
+ "C10": "Fifth session: organisms carry what an evaluator leaves (winner flags on organisms that are not the fittest, error values, built phenotypes, data objects).",
+ "C11": "Fifth session: SIZE scope - genomes of 36 (thorough 33 / 48 / 70) nodes whose genes follow a pattern (chain, skip links, recurrent back links, self-loops, every third gene disabled) x every module over four positions, all graph queries on all id pairs.",
+ "C12": "Fifth session: weight / input scales 0.1 and pi/7 (full mantissa) besides the dyadic ones; a construction variant tuned in place (weights, activation types, one more link) after a fast solver had been derived from the network.",
+ "C13": "Fifth session: `flush` is an operation of the histories (an instance may have been flushed any number of times before the judged flush).",
+ "C15": "Fifth session: two activation types registered by the user through the public registry (Codec.tla ActNames 24, 25) in every format; the by-species population file (Codec.tla 3b, mode popsp: species split, fitness order, winner flags); repeated genome ids in one population file; reader options that differ from the file; a module fed twice by one node; descending time stamps in experiment records.",
+ "C16": "Fifth session: a panic of goNEAT inside a goroutine of its own is a verdict (vlib.LibraryPanic), an epoch error in the race runs too; race-detector families with heavy interspecies mating / trait mutation and with 500+ innovations per generation (600 organisms, 60 x 16 genome); recorder processes of the population-guarantee stage at 1, 2 and all processors.",
+ "C17": "Fifth session: the executor value of two perturbed processes has an earlier life under another Options object; a scenario at log level debug with 1.1 s (resp. milliseconds) between epochs in perturbed processes; populations of 300 (thorough 520, 1000).",
+ "C18": "Fifth session: type lookups probed with four scalar arguments and module vectors of 1, 2 and 3 members; products of members alternating between 2^s and 2^-s (s = 300, 600); 26 more unknown names (short names of other NEAT libraries, stems of the registered names); auxiliary parameters passed to every path.",
+ "C19": "Fifth session: series of 63-257 elements; the experiment grows inside the Experiment value with every aggregate asked after every appended generation.",
+ "C20": "Fifth session: Experiment values with an earlier life (an Execute with two more runs, a Trials slice pre-sized to another length: the record count is then not judged, 14.6); one object as evaluator and observer.",
+}
+
 ALL = [json.loads(l)["id"] for l in open(os.path.join(VERIF, "properties.jsonl"))]
 
 
@@ -37,7 +57,7 @@ def main():
             "replay_cmd_template": "bin/check --property %s --replay {path}" % pid,
             "engine": "tlc+vh",
             "level_claimed": {"category": "model_checking", "text": c["text"], "design_ref": c["ref"]},
-            "level_note": c["note"],
+            "level_note": c["note"] + ((" " + ADDENDA[pid]) if pid in ADDENDA else ""),
             "technique": c["technique"],
         })
     m = {
